@@ -67,6 +67,21 @@ CHECKS = {
          "All 258 definitions are created with the real metaclass: lookup by number/name/attribute returns the one canonical member with the declared name and number; copy/deepcopy identity; pickle; openness (try_value) and closedness (call) for undefined numbers; every mutation attempt on class and members raises. Every defined/undefined number in singular, optional, oneof, repeated and map-value position survives binary and JSON round trips in both casings.",
          "definitions limited to 3 members over 6 numbers; plugin-generated enums are covered by C03",
          "DESIGN.md §4 C20"),
+ "C04": ("model_checking",
+         "bounded-exhaustive small-scope enumeration of (type, value, route) states; to_dict / json.dumps / from_dict edges over 2 casings x {dict, text} x {classmethod, instance}",
+         "Every universe case is rendered with to_dict in both casings, serialised with json.dumps, and read back through all four from_dict forms; the result must be equal to m, project to the same abstract value and encode to the same bytes.",
+         "universe and alphabets as C01",
+         "DESIGN.md §4 C04"),
+ "C05": ("model_checking",
+         "bounded-exhaustive small-scope enumeration of (type, value) states in both directions against google.protobuf.json_format, plus lexical clauses checked by a JSON model that is validated against the reference on every case",
+         "betterproto's to_json is parsed by json_format.Parse and compared; json_format.MessageToJson is parsed by from_json and compared (values and Python types); to_dict output is checked against the mapping's lexical rules (json names, 64-bit as strings, base64, enum names, non-finite floats, RFC 3339 / decimal seconds).",
+         "trusts google.protobuf.json_format as the reference of the canonical mapping",
+         "DESIGN.md §4 C05"),
+ "C06": ("model_checking",
+         "bounded-exhaustive small-scope enumeration of the presence matrix (field kind x never-set/default/non-default x construction route incl. parse and from_dict), alone and in pairs, judged by wire tokens and the reference's HasField/WhichOneof",
+         "Fresh messages read proto3 defaults and encode to nothing; on every state the set of field numbers on the wire must equal the set of fields the value model calls set, betterproto's own presence report (is None, is_set, which_one_of, serialized_on_wire) must agree, and after decoding it must equal the reference's HasField/WhichOneof on the same bytes.",
+         "universe and alphabets as C01; JSON-model dicts for the from_dict route are validated against json_format",
+         "DESIGN.md §4 C06"),
 }
 
 NOT_APPLICABLE_REASON = "check not built yet in this session; see DESIGN.md for the planned bounded-exhaustive exploration"
